@@ -108,6 +108,11 @@ def run_case(desc):
     if order.count(SET) % 2 == 1:
         order.append(SET)
     cur = [at, other_at]
+    inplace = bool(SET in order and sum(order) % 2 == 0)     # half of the histories re-use one mutated Atoms object
+    live = at.copy()
+    if inplace:
+        an = SymmetryAnalyzer(live, symmetry_tol=sc.TOL)
+        out.cls("history:set_system-inplace")
     hist = order + ([i for i in range(len(GETTERS)) if i not in order] if SET not in order else list(range(len(GETTERS))))
     names = ["set_system" if j == SET else GETTERS[j] for j in hist]
     if SET in order:
@@ -115,7 +120,16 @@ def run_case(desc):
     for pos, i in enumerate(hist):
         if i == SET:
             cur.reverse()
-            ok, v = call(an.set_system, cur[0])
+            if inplace:
+                # the SAME Atoms object is modified in place (a relaxation / trajectory loop) and handed over again
+                nxt = cur[0]
+                del live[list(range(len(live)))]
+                live.extend(nxt)
+                live.set_cell(nxt.get_cell(), scale_atoms=False)
+                live.set_pbc(nxt.get_pbc())
+                ok, v = call(an.set_system, live)
+            else:
+                ok, v = call(an.set_system, cur[0])
             if not ok:
                 return out.fail("returns-normally", "set_system (call %d of history %s): %r" % (pos, names, v), key="exc:set_system:" + exc_key(v))
             got = {}
